@@ -11,7 +11,7 @@ Ltac zl := unfold byte in *; lia.
 
 (* ---------- one step of each of the Spec's folds ---------- *)
 Definition ssid_step (tags : list byte) (acc : list byte) (e : elem) : list byte :=
-  if e_num e =? E_SSID then put0 (s_ssid_bytes tags e) acc else acc.
+  if e_num e =? E_SSID then put0 (s_ssid_bytes tags e) zero33 else acc.
 Definition hid_step (tags : list byte) (acc : Z) (e : elem) : Z :=
   if e_num e =? E_SSID
   then (if (e_len e =? 0) || forallb (fun b => b =? 0) (s_ssid_bytes tags e) then 1 else 0)
@@ -104,7 +104,7 @@ Section Handlers.
 
   Lemma handle_ssid_exact old e : genuine tags e ->
     handle_ssid rd old (e_off e + 2) (e_len e) =
-    Done (put0 (s_ssid_bytes tags e) old,
+    Done (put0 (s_ssid_bytes tags e) zero33,
           if (e_len e =? 0) || forallb (fun b => b =? 0) (s_ssid_bytes tags e) then 1 else 0).
   Proof.
     intros G. pose proof (genuine_len tags e Hwf G) as Hl. destruct G as (G0 & G1 & G2 & G3).
@@ -144,9 +144,10 @@ Section Handlers.
       rewrite enumerate_rsn_exact. reflexivity.
   Qed.
 
-  Lemma handle_msft_exact b e : genuine tags e -> 4 <= e_len e ->
+  Lemma handle_msft_exact b e : genuine tags e ->
     handle_msft rd b (e_off e + 2) (e_len e) =
-    Done (if znth (body_of tags e) 3 =? 1 then
+    Done (if e_len e <? 4 then Err (- EINVAL) else
+          if znth (body_of tags e) 3 =? 1 then
             match s_wpa_decode (body_of tags e) with
             | None => Err (- EINVAL)
             | Some i => Ok (mk_bss b (b_ssid b) (b_hidden b) (b_channel b)
@@ -158,11 +159,13 @@ Section Handlers.
                   {| x_enc := b_enc b; x_wps := 1; x_rsn := b_rsn b; x_wpa := b_wpa b |})
           else Ok b).
   Proof.
-    intros G Hl4. pose proof (genuine_len tags e Hwf G) as Hl. destruct G as (G0 & G1 & G2 & G3).
-    unfold handle_msft. rewrite Hag by lia. cbn [bind].
-    unfold body_of. rewrite znth_slice by lia.
+    intros G. pose proof (genuine_len tags e Hwf G) as Hl. destruct G as (G0 & G1 & G2 & G3).
+    unfold handle_msft.
     change c_MICROSOFT_OUI_TYPE_WPA with 1. change c_MICROSOFT_OUI_TYPE_WPS with 4.
     change sizeof_libwifi_tag_vendor_header with 4. change suite_len with 4.
+    destruct (e_len e <? 4) eqn:Hl4; [reflexivity|].
+    rewrite Hag by lia. cbn [bind].
+    unfold body_of. rewrite znth_slice by lia.
     destruct (znth tags (e_off e + 2 + 3) =? 1) eqn:T1.
     - destruct (e_len e <? 4 + 2 + 4) eqn:C.
       + unfold s_wpa_decode. rewrite zlen_slice by lia.
@@ -211,7 +214,8 @@ Section Handlers.
         change c_MICROSOFT_OUI with MSFT_OUI.
         unfold body_of at 1 4. rewrite !zfirstn_slice by lia.
         destruct (oui_eqb (slice (e_off e + 2) 3 tags) MSFT_OUI) eqn:O; cbn [andb].
-        + rewrite handle_msft_exact by (try lia; repeat split; assumption). cbn [bind].
+        + rewrite handle_msft_exact by (repeat split; assumption).
+          destruct (e_len e <? 4) eqn:L4'; [lia|]. cbn [bind].
           destruct (znth (body_of tags e) 3 =? 1) eqn:T1.
           * destruct (s_wpa_decode _) as [i|]; reflexivity.
           * destruct (znth (body_of tags e) 3 =? 4) eqn:T4; [reflexivity|].
@@ -339,7 +343,7 @@ Lemma bss_parsers_exact : forall f, frame_ok f ->
 Proof.
   intros f Hok. repeat split.
   - apply (parse_bss_kind_exact f 8 12 10 true Hok); lia.
-  - apply (parse_bss_kind_exact f 5 12 10 false Hok); lia.
+  - apply (parse_bss_kind_exact f 5 12 10 true Hok); lia.
   - apply (parse_bss_kind_exact f 1 6 0 true Hok); lia.
   - apply (parse_bss_kind_exact f 3 6 0 true Hok); lia.
 Qed.
@@ -362,6 +366,7 @@ Proof.
   unfold mk_sta. cbn [s_channel s_randomized s_transmitter s_receiver s_bssid s_ssid s_broadcast_ssid s_tags].
   change 2 with (2 ^ 1) at 1. rewrite land_pow2_testbit by lia.
   change (hdr_addr f A2) with (s_addr f 2). change (hdr_addr f A3) with (s_addr f 3).
+  change (hdr_addr f A1) with (s_addr f 1).
   destruct (Z.testbit (znth (s_addr f 2) 0) 1); reflexivity.
 Qed.
 
